@@ -156,8 +156,11 @@ def run_item(item) -> Acc:
         for name, lang in item["triggers"]:
             d = load.linters()[name]
             cmd = load.primary_command(name)
-            if not cmd or d.get("cross_file") or d.get("path_sensitive"):
+            if not cmd or d.get("cross_file") or name == "file-placement":
                 continue
+            # linters whose verdict also depends on the path (test directories, header rules per file type):
+            # only the spelling of the extension is varied for them, directory and stem stay as documented
+            case_only = bool(d.get("path_sensitive")) or lang not in SUPPORTED
             fs = load.trigger_files(name, lang)
             cfg = load.trigger_config(name, lang)
             if not fs or len(fs) != 1:
@@ -189,6 +192,8 @@ def run_item(item) -> Acc:
                 g = sorted((t[0], t[2], t[3], t[4]) for t in own(got))
                 if g != ref:
                     acc.fail({"check": "extension-case", "linter": name, "lang": lang}, {"cmd": cmd, "file": stem + variant, "code": code, "config": cfg}, ref[:3], g[:3], "the same file with an upper/mixed-case extension is analysed differently")
+            if case_only:
+                continue
             # (2) single-language linter on foreign / unsupported extensions
             langs = [lg for lg in (d.get("languages") or {}) if lg in SUPPORTED]
             single = len(langs) == 1
